@@ -124,7 +124,7 @@ inductive Act
   | aInit (i : Nat) (prepClose : Bool) | aCheck (i : Nat) | aAddCb (i : Nat) | aStore (i : Nat) | aOnConnect (i : Nat)
   | cClose (i : Nat) | cBusy (i : Nat) | cIdle (i : Nat)
   | tStart (i : Nat) | tUntrack (i : Nat) | tFdClose (i : Nat)
-  | shCall | shAgain | shQuit | shDetach | shLnClose | shRound | shObserve | shClose | shTornDown
+  | shCall | shAgain | shQuit | shDetach | shLnClose | shRound | shObserve | shSkip | shClose | shTornDown
   | shRecheck | shEnd | shTick | shCtx
   | ctxExpire
 deriving DecidableEq, Repr
@@ -221,16 +221,25 @@ def stepSh (cfg : Cfg) (s : S) : Act → Option S
                     sh := .ranging }
     else none
   | .shObserve =>
+    -- the Range callback runs on connection `i`. The entry may have been deleted since the Range
+    -- fetched it ("Range may reflect any mapping for that key from any point during the call"):
+    -- such a connection is torn down, hence not idle, and is counted.
     if s.sh = .ranging then
       match s.todo with
       | [] => none
       | i :: rest =>
         match s.conns[i]? with
-        | none => some { s with todo := rest }
+        | none => none
         | some c =>
-          if !s.tracked i then some { s with todo := rest }
-          else if c.isIdle then some { (s.setConn i { c with sawIdle := true }) with todo := rest, sh := .closing i }
+          if c.isIdle then some { (s.setConn i { c with sawIdle := true }) with todo := rest, sh := .closing i }
           else some { s with todo := rest, active := s.active + 1 }
+    else none
+  | .shSkip =>
+    -- the Range does not visit a key that was deleted meanwhile
+    if s.sh = .ranging then
+      match s.todo with
+      | [] => none
+      | i :: rest => if !s.tracked i then some { s with todo := rest } else none
     else none
   | .shClose =>
     match s.sh with
